@@ -11,7 +11,7 @@ from ..shrink import ops_candidates
 
 np, pd = sut.np, sut.pd
 ID = "C12"
-RUNS = {"quick": 9000, "thorough": 250000}
+RUNS = {"quick": 11700, "thorough": 250000}
 BUDGET = {"quick": 45, "thorough": 780}
 CHUNK = 300
 DET_EVERY = 200
